@@ -14,7 +14,9 @@
 
    Order of assignments: _bs_prm/_bs are assigned only after a successful
    load-or-generate-and-save, so a raising load or save leaves the memory
-   cache untouched.  No proofs here. *)
+   cache untouched; since 7ce4ac5 a loaded array whose shape is not what the
+   file name promises raises ValueError inside the try block (regenerated).
+   No proofs here. *)
 From Coq Require Import List Arith Bool.
 From PA Require Import base.Npy model.CacheCommon.
 Import ListNotations.
@@ -78,8 +80,6 @@ Definition pick (n sig di : nat) (d : disk fkey xcont) : option (fkey * fstate x
   | None => best_file n sig (in_dir di d) None
   end.
 
-Definition junk (sz sig : nat) : xcont := {| x_sig := sig; x_gen := 0; x_n := sz; x_junk := true |}.
-
 Definition set_bs (s : st) (g : bdglobal) (x : xcont) (n sig : nat) (d : disk fkey xcont) : st :=
   {| bs := Some x; bs_prm := Some (n, sig); trf_prm := None; trf := trf s;
      tri_prm := None; tri := tri s; gdir := g; dk := d |}.
@@ -112,7 +112,7 @@ Definition ensure_bs (s : st) (n sig : nat) (bd : bdarg) : st * option exc :=
         | None => regenerate
         | Some (_, FBad PValue) => regenerate            (* except ValueError *)
         | Some (_, FBad e) => (s1, Some (load_exc e))
-        | Some (k, FShape) => (set_bs s1 g (crop n (junk (Nat.div2 (fst k)) sig)) n sig (dk s), None)
+        | Some (_, FShape) => regenerate                 (* shape check raises ValueError inside the try *)
         | Some (_, FGood x) => (set_bs s1 g (crop n x) n sig (dk s), None)
         end
     end.
@@ -258,14 +258,14 @@ Definition xcont_eqb (a b : xcont) : bool :=
 Definition uses_bad_dir (s : st) (bd : bdarg) : bool :=
   match snd (resolve (gdir s) bd) with Some di => negb (dir_writable di) | None => false end.
 
+(* assumptions about the environment, not defects *)
 Definition hazard (s : st) (o : op) : bool :=
   match o with
   | Call _ _ _ _ _ _ bd => uses_bad_dir s bd
   | Seed d k c =>
       match c with
-      | FShape => true
       | FGood x => negb (xcont_eqb x (ideal (fst k) (snd k)))
-      | FBad _ => false
+      | _ => false
       end
   | _ => false
   end.
